@@ -112,6 +112,8 @@ func runC13(c *Ctx, tier string) {
 	c.Rule("C13-M2", "a lister pins its snapshot: Lister.snap is written only while the lister is being constructed")
 	runJournalFreshness(c, "C13-R2")
 	runSnapshotCopyDeep(c, "C13-M3")
+	c.Rule("C13-V1", "vacuum removes only what the requested commit no longer contains (= C14-V1): data of objects visible at that commit is never offered for deletion")
+	c.borrow(func(t *Ctx) { runC14(t, "quick") }, map[string]string{"C14-V1": "C13-V1"})
 	whoMayCall(c, "C13-W1", "storage.Engine.Delete/DeleteByPrefix",
 		func(cc *ssa.CallCommon, _ string) bool { return isEngineMethod(cc, "Delete", "DeleteByPrefix") },
 		map[string]string{
@@ -779,6 +781,7 @@ func runC17(c *Ctx, tier string) {
 	// O6: existence is not completeness
 	runSnapshotErrorNotUsed(c, "C17-S1")
 	runSnapshotEndMarker(c, "C17-S2")
+	runCommitSnapshotMarker(c, "C17-S3")
 	c.Rule("C17-O6", "existence of a stored object is never taken as proof that it is complete: storage.Engine.Exists is called only from the confirmed read-only sites; no write path skips (re)writing an object because a file of that name exists (a crash leaves such files behind)")
 	whoMayCall(c, "C17-O6", "storage.Engine.Exists",
 		func(cc *ssa.CallCommon, _ string) bool { return isEngineMethod(cc, "Exists") },
